@@ -379,6 +379,38 @@ fn builtin_types(r: &Report) {
         r.add(sub, n, n);
         r.outcome(sub, "ArrayIter/MapIter", n);
     }
+    // IanaTag: encodes as the head of its registered number; Tag <-> IanaTag conversions are inverse
+    {
+        use minicbor::data::IanaTag::*;
+        let all = [
+            (DateTime, 0u64), (Timestamp, 1), (PosBignum, 2), (NegBignum, 3), (Decimal, 4), (Bigfloat, 5), (ToBase64Url, 21), (ToBase64, 22), (ToBase16, 23), (Cbor, 24), (Uri, 32),
+            (Base64Url, 33), (Base64, 34), (Regex, 35), (Mime, 36), (MultiDimArrayR, 40), (HomogenousArray, 41), (TypedArrayU8, 64), (TypedArrayU16B, 65), (TypedArrayU32B, 66),
+            (TypedArrayU64B, 67), (TypedArrayU8Clamped, 68), (TypedArrayU16L, 69), (TypedArrayU32L, 70), (TypedArrayU64L, 71), (TypedArrayI8, 72), (TypedArrayI16B, 73),
+            (TypedArrayI32B, 74), (TypedArrayI64B, 75), (TypedArrayI16L, 77), (TypedArrayI32L, 78), (TypedArrayI64L, 79), (TypedArrayF16B, 80), (TypedArrayF32B, 81),
+            (TypedArrayF64B, 82), (TypedArrayF128B, 83), (TypedArrayF16L, 84), (TypedArrayF32L, 85), (TypedArrayF64L, 86), (TypedArrayF128L, 87), (MultiDimArrayC, 1040),
+        ];
+        let mut n = 0u64;
+        for (t, num) in all {
+            n += 1;
+            let out = minicbor::to_vec(t).unwrap();
+            let len = minicbor::len(t);
+            let via = enc(|e| {
+                e.tag(t).unwrap();
+            });
+            let back = minicbor::data::IanaTag::try_from(Tag::new(num)).ok();
+            if out != preferred_head(6, num) || via != out || len != out.len() || back != Some(t) || u64::from(t) != num || Tag::from(t) != Tag::new(num) {
+                r.fail(sub, None, json!({"type": "IanaTag", "value": format!("{:?}", t), "registered_number": num}), format!("encoded as {} (len() = {}), Encoder::tag wrote {}, TryFrom<Tag>({}) = {:?}", hex(&out), len, hex(&via), num, back));
+            }
+        }
+        for unknown in [6u64, 20, 25, 31, 37, 39, 42, 63, 76, 88, 1039, 1041, u64::MAX] {
+            n += 1;
+            if minicbor::data::IanaTag::try_from(Tag::new(unknown)).is_ok() {
+                r.fail(sub, None, json!({"type": "IanaTag", "tag": unknown}), "an unregistered tag number converted to an IanaTag");
+            }
+        }
+        r.add(sub, n, n);
+        r.outcome(sub, "IanaTag", n);
+    }
     r.sample(sub, json!({"type": "Vec<u8>", "value": "[0, 255]", "encoded_hex": "820018ff"}));
 }
 
